@@ -605,7 +605,9 @@ func openStore(dir string, options StoreOptions) (*Store, error) {
 			continue
 		}
 
-		if !options.KeepFiles {
+		// In ReadOnly mode the storage files must remain unchanged, so
+		// the other files are left alone, too.
+		if !options.KeepFiles && !options.CollectionOptions.ReadOnly {
 			rmFiles := append(fnames[0:i], fnames[i+1:]...)
 			if options.CollectionOptions.Log != nil {
 				options.CollectionOptions.Log("store: openStore,"+
